@@ -243,10 +243,12 @@ DB_TB = ["log-level model: a keyspace's tables / memtables are the operations th
 PROPS["C04"] = dict(
     title="Close and reopen reproduces exactly the same logical content",
     modules=["FjallModel.Props.C04"],
-    theorems=["Fjall.Db.c04_reopen_same_partial", "Fjall.Db.c04_reopen_same_keyspaces", "Fjall.Db.c04_replay_idempotent"],
+    theorems=["Fjall.Db.c04_reopen_same_partial", "Fjall.Db.c04_reopen_same_keyspaces", "Fjall.Db.c04_replay_idempotent", "Fjall.Db.c04_ingested_tombstone_comes_back"],
     statements={
-        "c04_reopen_same_partial": "forall histories (create/delete keyspace, write, batch, clear, rotate, flush, lowered persisted seqno, earlier reopen cycles; no journal rotation): "
-                                   "abs (recover db) id ~ abs db id for every keyspace id",
+        "c04_reopen_same_partial": "forall histories (create/delete keyspace, write, batch, clear, rotate, flush, bulk ingestion of values, lowered persisted seqno after tombstone "
+                                   "eviction, earlier reopen cycles; no journal rotation): abs (recover db) id ~ abs db id for every keyspace id, where recover replays exactly the "
+                                   "journal records above the highest seqno found in the keyspace's tables (the repaired skip rule)",
+        "c04_ingested_tombstone_comes_back": "counterexample (known finding F13-ingest): with an ingested tombstone evicted by compaction, recover brings the deleted key back",
         "c04_reopen_same_keyspaces": "the same (id, name) list comes back",
         "c04_replay_idempotent": "re-applying an already reflected clear-free suffix followed by the rest changes nothing",
     },
@@ -257,8 +259,10 @@ PROPS["C04"] = dict(
          "three ways (real scan + point reads, Lean log-level model, reference map per name). non-trivial = a reopen or crash image while both tables and journal "
          "hold data, or a journal eviction happened",
     trusted_base=DB_TB,
-    assumptions=["ingestion and compaction filters are outside the partial theorem (findings F2/F3/F13 region)", "single thread"],
-    level_text="Lean 4 theorem: recovery reproduces every keyspace for all histories without journal rotation (inductive coverage invariant + replay idempotence), "
+    assumptions=["ingested tombstones (known finding F13-ingest) and compaction filters (C18) are outside the theorem's hypothesis ProgWF", "single thread",
+                 "the highest persisted seqno observed after a compaction satisfies KsL.physOk (a newest-for-its-key value is never dropped); the driver checks this on every observed value"],
+    level_text="Lean 4 theorem: recovery reproduces every keyspace for all histories without journal rotation (inductive coverage invariant: seqno order, journaled part of the tables, "
+               "stale re-replayed tail, no live value above the persisted seqno; re-applying a tombstone-only segment is invisible), "
                "tied to the real crate by an engine that also exercises sealed journals, eviction, deletion and crash images",
     level_note="partial: sealed-journal recovery (skip rule) and eviction safety are compared by the engine; their theorem is stage 2",
     technique="Lean 4 proof (coverage invariant over operation histories, last-writer-wins idempotence) + differential correspondence",
@@ -385,6 +389,37 @@ PROPS["C13"] = dict(
     level_note="partial: multi-threaded writers and worker-thread poisoning are not in the model",
     technique="Lean 4 proof (case analysis of every write path, induction over the workload) + fault-injection correspondence",
     design_ref="6 C13",
+)
+
+PROPS["C18"] = dict(
+    title="Compaction filters act only where assigned, and only as their verdicts say",
+    modules=["FjallModel.Props.C18"],
+    theorems=["Fjall.Mvcc.c18_filtered_either", "Fjall.Mvcc.c18_keep_untouched", "Fjall.Mvcc.c18_filtered_monotone",
+              "Fjall.Mvcc.c18_unfiltered_unchanged", "Fjall.Mvcc.c18_assignment"],
+    statements={
+        "c18_filtered_either": "forall filters f (key -> keep | remove | replace v), trees satisfying the C01 invariant, maintenance sequences (rotate, flush w, filtered compaction of any "
+                               "segment with any watermark) and keys: the visible value is the original one or filtered f k original, nothing else",
+        "c18_keep_untouched": "f k = keep implies the visible value never changes under any maintenance sequence",
+        "c18_filtered_monotone": "once a key shows its filtered form, every further maintenance sequence keeps showing it",
+        "c18_unfiltered_unchanged": "a compaction without filter changes no visible value (C01)",
+        "c18_assignment": "in every state reachable by create / delete / reopen, hasFilter k = assigner(k.name) for every live keyspace",
+    },
+    engines=[dict(bin="filt", cases_quick=320, cases_thorough=8000, profiles=["release"])],
+    rule="case = assigner variant (by name: only f*, all, none) x program over keyspaces f1, f2, u1: inserts / removes / overwrites of keys whose first byte fixes the verdict "
+         "(k* keep, r* remove, p* replace by a key-derived value), rotations, queued worker steps, major compactions, reopen anywhere; after every step every key of every "
+         "keyspace is read: keep-keys and all keys of unassigned keyspaces must equal the reference map, filtered keys must show original or filtered form and stay filtered "
+         "once seen until rewritten; keyspace_has_compaction_filter (hook) == assigner(name) after create and after reopen; the Mvcc filter model is run on the same program "
+         "until the first reopen. non-trivial = a filtered key was observed in filtered form and a reopen happened",
+    trusted_base=["lsm-tree's CompactionStream filter hook is modelled as 'map the visible (newest, above-watermark) entry of each key of the compacted segment through the verdict, "
+                  "then the C01 GC rule'; exercised, not verified",
+                  "keyspace_has_compaction_filter (cfg fjall_verif hook) reports the factory stored in the keyspace's tree config"],
+    assumptions=["deterministic filters deciding from the key", "single thread",
+                 "reopen while the journal still holds a record of a key the filter removed is the known finding F13-remove (excluded from the random exploration, probed by a stored witness)"],
+    level_text="Lean 4 theorems over all filters, maintenance sequences and keys (on top of the C01 tree invariant) plus the assignment invariant over create / delete / reopen histories; "
+               "tied to the real crate by the filt engine with every background step a deterministic input",
+    level_note="partial: reopen of a filtered keyspace is covered by the engine and the log-level recovery theorem (C04), not by a combined theorem",
+    technique="Lean 4 proof (per-key case analysis of the filtered compaction over the C01 invariant; invariant over keyspace histories) + differential correspondence",
+    design_ref="6 C18",
 )
 
 ALL_IDS = [f"C{i:02d}" for i in range(1, 19)]
